@@ -77,6 +77,7 @@ impl Cfg {
 }
 
 const LOCAL_IP: [u8; 4] = [10, 0, 0, 1];
+const LOCAL_IP6: [u8; 16] = [0x20, 0x01, 0x0d, 0xb8, 0, 0, 0, 0, 0, 0, 0, 0, 0, 0, 0, 0x17];
 const S2C_KEY: [u8; 32] = [7; 32];
 const C2S_KEY: [u8; 32] = [9; 32];
 const OTHER_KEY: [u8; 32] = [11; 32];
@@ -121,7 +122,11 @@ impl Sut {
     pub(crate) fn new(cfg: Cfg, seed: u64, with_ids: bool) -> Self {
         let ctl = Arc::new(Mutex::new(CtlInner { desired: cfg.min_poll, ..Default::default() }));
         let sync = crate::config::SynchronizationConfig { local_stratum: cfg.local_stratum, ..Default::default() };
-        let ips: Arc<[IpAddr]> = Arc::from(vec![IpAddr::V4(Ipv4Addr::from(LOCAL_IP))]);
+        // this daemon has an address in each family; a looping source may name either of them as its reference
+        let ips: Arc<[IpAddr]> = Arc::from(vec![
+            IpAddr::V6(std::net::Ipv6Addr::from(LOCAL_IP6)),
+            IpAddr::V4(Ipv4Addr::from(LOCAL_IP)),
+        ]);
         let mgr = crate::system::NtpManager::new(sync, ips);
         let addr = if cfg.src_local { Ipv4Addr::from(LOCAL_IP) } else { Ipv4Addr::new(10, 0, 0, 2) };
         let limits = PollIntervalLimits {
@@ -190,6 +195,7 @@ impl Sut {
             }
         };
         let local_ref = ReferenceId::from_ip(IpAddr::V4(Ipv4Addr::from(LOCAL_IP)));
+        let local_ref6 = ReferenceId::from_ip(IpAddr::V6(std::net::Ipv6Addr::from(LOCAL_IP6)));
         json!({
             "proto": proto, "k": k, "since": since, "tries": src.tries.min(3) as i64, "pend": pend,
             "deny": src.have_deny_rstr_response,
@@ -197,7 +203,7 @@ impl Sut {
             "lastPoll": src.last_poll_interval.as_log() as i64,
             "stashLen": src.nts.as_ref().map(|n| n.cookies.len() as i64).unwrap_or(0),
             "stratum": src.stratum as i64,
-            "refLocal": src.reference_id == local_ref,
+            "refLocal": src.reference_id == local_ref || src.reference_id == local_ref6,
             "obs_unanswered": src.observe("x".into(), ClockId(1)).unanswered_polls as i64,
         })
     }
@@ -345,7 +351,12 @@ impl Sut {
                 // (a KISS code string in the reference id of a non-KISS packet is just a reference id)
                 h.word3 = code.as_bytes()[..4].try_into().unwrap();
             } else if b(p, "refLocal") {
-                h.word3 = LOCAL_IP;
+                // the reference id of either of our addresses (IPv6: first four bytes of its MD5)
+                h.word3 = if self.rng.chance(1, 2) {
+                    LOCAL_IP
+                } else {
+                    ReferenceId::from_ip(IpAddr::V6(std::net::Ipv6Addr::from(LOCAL_IP6))).to_bytes()
+                };
             } else {
                 h.word3 = [192, 168, 7, 7];
             }
